@@ -1,5 +1,5 @@
-//! G2' probes (thorough): depth-2 nestings; unary-unary over the 6-leaf set,
-//! binary shapes over the six (L, M) pairs of `ty::PAIRS`. Requested only,
+//! G2' probes: depth-2 nestings; unary-unary over the 6-leaf set (both tiers),
+//! binary shapes over the six (L, M) pairs of `ty::PAIRS` (thorough). Requested only,
 //! never called (the G1 diagonal is the one that is called).
 use c04p::probe::Table;
 use c04p::{add_nocall, six};
@@ -41,18 +41,16 @@ macro_rules! bin {
     };
 }
 
-fn unary(v: &mut Table) {
+/// U<W<L>> for U, W in {Option, List}, L in the 6-leaf set (both tiers)
+pub fn unary(v: &mut Table) {
     six!(oo!(v));
     six!(ol!(v));
     six!(lo!(v));
     six!(ll!(v));
 }
 
-fn binary(v: &mut Table) {
+/// the twelve binary depth-2 shapes over `ty::PAIRS` (thorough)
+pub fn binary(v: &mut Table) {
     pairs!(bin!(v));
 }
 
-pub fn all(v: &mut Table) {
-    unary(v);
-    binary(v);
-}
